@@ -142,7 +142,7 @@ Section BFState.
     lenst st /\ dle (d0 g s) (dist st) /\ real g s (dist st) /\
     cache_inv st cached /\
     match cached with
-    | None => good g s st \/ pred st = pred0
+    | None => good g s st \/ (k < 1 /\ pred st = pred0)
     | Some _ => True
     end.
 
@@ -154,7 +154,7 @@ Section BFState.
   Proof.
     induction fuel as [|f IH]; intros steps st cached Hst [Hl [Hd [Hr [Ho [Hc Hm]]]]].
     - cbn. split; [exact Hl|]. split; [exact Hd|]. split; [exact Hr|]. split; [exact Hc|].
-      destruct cached; [exact I|]. destruct Hm as [[_ A] | [_ A]]; auto.
+      destruct cached; [exact I|]. destruct Hm as [[_ A] | A]; auto.
     - cbn [bf_loop]. destruct (bf_round g k steps st) as [st' upd] eqn:Er.
       assert (Est : st' = fst (bf_round g k steps st)) by (rewrite Er; reflexivity).
       assert (Hl' : lenst st') by (rewrite Est; apply round_lenst; exact Hl).
@@ -190,7 +190,7 @@ Section BFState.
           destruct Hm' as [[A B] | [A B]]; [left; split; [lia | exact B] | right; auto].
       + (* no update: stop *)
         cbn [fst snd]. split; [exact Hl'|]. split; [exact Hd'|]. split; [exact Hr'|]. split; [exact Hc'|].
-        destruct cached; [exact I|]. destruct Hm' as [[_ A] | [_ A]]; auto.
+        destruct cached; [exact I|]. destruct Hm' as [[_ A] | A]; auto.
   Qed.
 
   Definition init_st : state := init_state g s.
@@ -216,7 +216,7 @@ Section BFState.
   Theorem bellman_ford_result source res :
     index_of source (g_toks g) = Some s ->
     bellman_ford g k source = Ok res ->
-    (good g s res \/ no_pred res) /\ getd (dist res) s = Some 0 /\ opt g s k (dist res).
+    (good g s res \/ (k < 1 /\ no_pred res)) /\ getd (dist res) s = Some 0 /\ opt g s k (dist res).
   Proof.
     intros Hix H. unfold bellman_ford in H. rewrite Hix in H.
     pose proof (bf_loop_res (Z.to_nat (node_count g - 1)) 1 init_st None ltac:(lia)) as Hres.
@@ -238,7 +238,7 @@ Section BFState.
       destruct (D _ _ Ha) as [b [Hb Hba]]. rewrite H0 in Hb. inversion Hb; subst b.
       assert (a = 0) by lia. subst a. exact Ha.
     - cbn [dist]. split.
-      + destruct Hm as [A | A]; [left; destruct st; exact A | right].
+      + destruct Hm as [A | [A0 A]]; [left; destruct st; exact A | right]. split; [exact A0|].
         intros j. cbn [pred]. rewrite A. apply getd_repeat_none.
       + split; [exact H0|]. apply (feasible_opt g s Hs Hwf); assumption.
   Qed.
